@@ -402,6 +402,9 @@ pub fn finish(def: &CheckDef, tier: Tier, seed: u64, mut merged: Partial, t0: In
             merged.machinery_errors.push(format!("vacuous run: counter `{}` is zero", r));
         }
     }
+    if merged.samples.is_empty() {
+        merged.machinery_errors.push("no samples recorded".to_string());
+    }
     let mut code = 0;
     if !new_viol.is_empty() {
         code = 1;
